@@ -298,7 +298,7 @@ impl Property for CpuProp {
     fn rule(&self) -> &'static str {
         match self.0 {
             Which::C01 => "seeded program runs (64 KiB themed random code, random full register file incl. MEMPTR/Q, 300..2000 instructions) and state-sweep runs (stratified over the 7 encoding pages x 256 opcodes with a fresh random state per instruction); every instruction compared with RefZ80 (registers, hidden state, ordered bus value history); distinct = (encoding page, opcode, timing/flag variant) triples executed and compared",
-            Which::C02 => "program runs biased to EI/DI/HALT/RETN/RETI/IM/LD A,I/prefix chains under a seeded INT-level / NMI-edge schedule keyed by sampling opportunity, IM-2 bus byte random; lock-step with RefZ80 plus independent history monitors; distinct = (encoding page, opcode, variant) executed; states = abstract control states (IFF1, IFF2, halted, after-EI/DI, prefix-pending, IM, INT, NMI, outcome)",
+            Which::C02 => "program runs biased to EI/DI/HALT/RETN/RETI/IM/LD A,I/prefix chains under a seeded INT-level / NMI-edge schedule keyed by sampling opportunity, IM-2 bus byte random; lock-step with RefZ80 plus independent history monitors; one run in forty is a machine-level run (real Emulator vs RefZ80 on RefMem+RefULA, sequencing-critical instructions crafted to end inside the frame INT pulse, host actions - rejected snapshot files, snapshot saves, pokes - right behind them or inside a prefix chain; an interrupt taken or skipped against the rules is identified by re-running the reference step with the opposite decision); distinct = (encoding page, opcode, variant) executed; states = abstract control states (IFF1, IFF2, halted, after-EI/DI, prefix-pending, IM, INT, NMI, outcome)",
             Which::C03 => "the C01/C02 run shapes with the full timed bus-cycle list of every instruction compared with RefZ80's cycle script (M1=4, R/W=3, one-T delays with their address, port cycles, interrupt entry totals); distinct = (encoding page, opcode, variant) whose script was compared",
         }
     }
@@ -324,7 +324,7 @@ impl Property for CpuProp {
     }
     fn expected_probes(&self) -> Vec<&'static str> {
         match self.0 {
-            Which::C02 => vec!["int_im01", "int_im2", "int_releases_halt", "nmi_releases_halt", "int_masked", "boundary_after_ei_di_not_sampled", "prefix_chain", "halt_step"],
+            Which::C02 => vec!["int_im01", "int_im2", "int_releases_halt", "nmi_releases_halt", "int_masked", "boundary_after_ei_di_not_sampled", "prefix_chain", "halt_step", "lockstep_crafted_boundary", "lockstep_host_action", "lockstep_crafted_short_im2_handler"],
             _ => vec!["variant_taken_or_repeat", "ignored_prefix"],
         }
     }
